@@ -2,6 +2,7 @@ package graphsim
 
 import (
 	"context"
+	"runtime/debug"
 	"crypto/sha256"
 	"encoding/hex"
 	"errors"
@@ -47,7 +48,7 @@ func doCall(env *Env, r compose.Runnable[M, M], c *Call) (res *CallResult) {
 	res = &CallResult{}
 	defer func() {
 		if p := recover(); p != nil {
-			res.Panic = p
+			res.Panic = fmt.Sprintf("%v\n%s", p, trimStack(debug.Stack()))
 			res.Done = true
 			res.EndSeq = env.Seq()
 		}
@@ -334,4 +335,21 @@ func tmConservation(o *core.Outcome, prefix string, s *kernel.Sim, complete bool
 		}
 	}
 	o.Stat("tm.pushes", len(push))
+}
+
+// trimStack keeps the eino frames of a panic stack, without addresses (stable across processes).
+func trimStack(b []byte) string {
+	var out []string
+	for _, l := range strings.Split(string(b), "\n") {
+		if strings.HasPrefix(l, "github.com/cloudwego/eino/") {
+			if i := strings.LastIndexByte(l, '('); i > 0 {
+				l = l[:i]
+			}
+			out = append(out, strings.TrimPrefix(l, "github.com/cloudwego/eino/"))
+		}
+		if len(out) >= 8 {
+			break
+		}
+	}
+	return strings.Join(out, " < ")
 }
